@@ -198,6 +198,27 @@ static inline void fmt_run(struct fmt_sink *k, const char *fmt, va_list ap)
     }
 }
 
+#ifdef FMT_TRIVIAL
+int nondet_fmt_int(void);
+int verif_snprintf_t(char *s, size_t size)
+{
+    int r = nondet_fmt_int();
+    __CPROVER_assume(r >= 0 && r <= 24);
+    if (size > 0) {
+        __CPROVER_assert(fmt_base != 0 && s != 0, "PROP C13 snprintf asked to store through a NULL destination");
+        s[0] = 0;
+    }
+    return r;
+}
+int verif_printf_t(void)
+{
+    int r = nondet_fmt_int();
+    __CPROVER_assume(r >= 0 && r <= 24);
+    fmt_stdout_len += (size_t) r;
+    return r;
+}
+#endif
+
 int verif_snprintf(char *s, size_t size, const char *fmt, ...)
 {
     struct fmt_sink k;
